@@ -52,7 +52,10 @@ def run_check(patch, prop, tier="quick"):
     d = scratch_copy()
     try:
         repo = d + "/repo"
-        sh("patch -p1 -s < %s" % patch, cwd=repo)
+        prc, pout = sh("patch -p1 -s --no-backup-if-mismatch < %s" % patch, cwd=repo)
+        if prc != 0:
+            # the library moved on under the patch (a later repair touched the same lines): nothing was run
+            return {"check": prop, "tier": tier, "rc": None, "detected": False, "stale_patch": True, "first": [], "tail": [pout.strip()[-200:]]}
         rc, out = sh([os.path.join(VERIF, "check"), prop, "--tier", tier], cwd=VERIF,
                      env={"VERIF_REPO": repo, "VERIF_OUT": d + "/out"}, timeout=7200)
         viol = [l for l in out.splitlines() if l.startswith("VIOLATION") or l.startswith("   why")][:4]
@@ -98,7 +101,7 @@ def do_run(prefix, tier):
         res = run_check(os.path.join(dst, "patch.diff"), meta["property"], tier)
         meta["checks"] = meta.get("checks", []) + [res]
         json.dump(meta, open(os.path.join(dst, "meta.json"), "w"), indent=1)
-        print("%s: %s %s" % (name, "DETECTED" if res["detected"] else "MISSED rc=%s" % res["rc"], res["first"][1:2]))
+        print("%s: %s %s" % (name, "DETECTED" if res["detected"] else ("PATCH-STALE" if res.get("stale_patch") else "MISSED rc=%s" % res["rc"]), res["first"][1:2]))
 
 
 if __name__ == "__main__":
